@@ -160,7 +160,7 @@ def probeHits (pat : Bytes) (_ : Req) (s : Nat) : Nat :=
 def bindableHosts : List Bytes := [str "localhost", str "127.0.0.1", str "127.0.0.2", [], str "0.0.0.0"]
 def loadable (network host : Bytes) (port : Nat) : Bool :=
   (network == sTcp && port == 0 && bindableHosts.contains host) ||
-  (network == sUnix && hasPrefix host (str "c13-load"))
+  (network == sUnix && (hasPrefix host (str "c13-load") || host == str "c13-default.sock"))
 
 /-- the permission-bits suffix of a unix socket address is modelled up to 6 octal digits -/
 def unixPermInDomain (network host : Bytes) : Bool :=
